@@ -48,11 +48,29 @@ def harness_names(cid):
     mod = PROPS[cid]["module"]
     src = open(os.path.join(HARNESS, "src", mod + ".rs")).read()
     names = sorted(set(re.findall(r"\b(%s_[qt]_\w+)\b" % cid.lower(), src)))
+    if PROPS[cid].get("selfcheck", True):
+        # infrastructure self-checks (layout assumptions of the arena) run with every family
+        src0 = open(os.path.join(HARNESS, "src", "c00.rs")).read()
+        names += sorted(set(re.findall(r"\b(c00_q_\w+)\b", src0)))
     return names
 
 
+HARNESS_RUN = HARNESS
+
+
 def prepare_crate():
-    shutil.copyfile(os.path.join(REPO, "Cargo.lock"), os.path.join(HARNESS, "Cargo.lock"))
+    """the harness crate depends on /repo/blots-core by path; when VERIF_REPO points elsewhere (a scratch
+    worktree used to try a seeded change without touching /repo) a copy of the crate with the path
+    rewritten is used instead"""
+    global HARNESS_RUN
+    if os.path.realpath(REPO) != "/repo":
+        HARNESS_RUN = os.path.join(CACHE, "harness-copy")
+        shutil.rmtree(HARNESS_RUN, ignore_errors=True)
+        os.makedirs(HARNESS_RUN)
+        shutil.copytree(os.path.join(HARNESS, "src"), os.path.join(HARNESS_RUN, "src"))
+        toml = open(os.path.join(HARNESS, "Cargo.toml")).read().replace('path = "/repo/blots-core"', 'path = "%s/blots-core"' % REPO)
+        open(os.path.join(HARNESS_RUN, "Cargo.toml"), "w").write(toml)
+    shutil.copyfile(os.path.join(REPO, "Cargo.lock"), os.path.join(HARNESS_RUN, "Cargo.lock"))
 
 
 def kani_env():
@@ -62,19 +80,21 @@ def kani_env():
     return env
 
 
-def run_family(cid, tier, jobs, timeout_s, target):
+def run_family(cid, tier, jobs, timeout_s, target, only=None):
     out_dir = os.path.join(target, "result_output_dir")
     shutil.rmtree(out_dir, ignore_errors=True)
     pat = "%s_q_" % cid.lower() if tier == "quick" else "%s_" % cid.lower()
+    if only:
+        pat = only
     cmd = [
         "cargo", "kani", "--target-dir", target, "-Z", "unstable-options", "-Z", "stubbing",
-        "--harness", pat, "--harness-timeout", "%ds" % timeout_s, "-j", str(jobs),
+        "--harness", pat, "--harness", "c00_q_", "--harness-timeout", "%ds" % timeout_s, "-j", str(jobs),
         "--output-format", "terse", "--output-into-files", "--no-overflow-checks",
         "--cbmc-args", "--max-field-sensitivity-array-size", "4096",
     ]
     t0 = time.time()
     mem_kb = int(os.environ.get("VERIF_CBMC_MEM_KB", "14000000"))
-    p = sh("ulimit -v %d; exec %s" % (mem_kb * max(1, jobs), " ".join(cmd)), cwd=HARNESS, env=kani_env())
+    p = sh("ulimit -v %d; exec %s" % (mem_kb * max(1, jobs), " ".join(cmd)), cwd=HARNESS_RUN, env=kani_env())
     return p.stdout, time.time() - t0, out_dir, " ".join(cmd)
 
 
@@ -168,7 +188,7 @@ def extract_counterexamples(cid, hname, target, timeout_s):
         "--cbmc-args", "--max-field-sensitivity-array-size", "4096",
     ]
     cmd = [c for c in cmd if c]
-    p = sh(" ".join(cmd), cwd=HARNESS, env=kani_env())
+    p = sh(" ".join(cmd), cwd=HARNESS_RUN, env=kani_env())
     return parse_playback(p.stdout), p.stdout
 
 
@@ -176,9 +196,9 @@ def native_replay(cid, hname, tests, scratch):
     """run each extracted input natively (real code, no stubs) through `cargo kani playback`"""
     shutil.rmtree(scratch, ignore_errors=True)
     os.makedirs(scratch)
-    shutil.copytree(os.path.join(HARNESS, "src"), os.path.join(scratch, "src"))
-    shutil.copyfile(os.path.join(HARNESS, "Cargo.toml"), os.path.join(scratch, "Cargo.toml"))
-    shutil.copyfile(os.path.join(HARNESS, "Cargo.lock"), os.path.join(scratch, "Cargo.lock"))
+    shutil.copytree(os.path.join(HARNESS_RUN, "src"), os.path.join(scratch, "src"))
+    shutil.copyfile(os.path.join(HARNESS_RUN, "Cargo.toml"), os.path.join(scratch, "Cargo.toml"))
+    shutil.copyfile(os.path.join(HARNESS_RUN, "Cargo.lock"), os.path.join(scratch, "Cargo.lock"))
     mod = PROPS[cid]["module"]
     body = ["// generated by run_kani.py"]
     for i, t in enumerate(tests):
@@ -208,6 +228,7 @@ def main():
     ap.add_argument("cid")
     ap.add_argument("--tier", default=os.environ.get("VERIF_TIER", "quick"))
     ap.add_argument("--no-replay", action="store_true")
+    ap.add_argument("--only", default=None, help="development aid: run only harnesses whose name contains this substring (evidence is still written; not used by MANIFEST commands)")
     a = ap.parse_args()
     cid, tier = a.cid.upper(), a.tier
     if cid not in PROPS or PROPS[cid].get("engine") != "kani":
@@ -223,10 +244,12 @@ def main():
     prepare_crate()
     names = harness_names(cid)
     selected = [n for n in names if tier == "thorough" or "_q_" in n]
+    if a.only:
+        selected = [n for n in names if a.only in n or n.startswith("c00_")]
     if not selected:
         print("no harnesses selected")
         return 2
-    out, wall_kani, out_dir, cmdline = run_family(cid, tier, jobs, timeout_s, target)
+    out, wall_kani, out_dir, cmdline = run_family(cid, tier, jobs, timeout_s, target, a.only)
     open(os.path.join(CACHE, "last_%s_%s.log" % (cid, tier)), "w").write(out)
     if "error: could not compile" in out or "Failed to execute cargo" in out:
         print(out[-3000:])
@@ -279,8 +302,8 @@ def main():
             continue
         rr = native_replay(cid, n, fail_tests, os.path.join("/var/tmp", "blots-verif-replay-%d" % os.getpid()))
         reproduced = [x for x in rr if x["panicked"]]
-        os.makedirs(os.path.join(VERIF, "replays"), exist_ok=True)
-        rp = os.path.join(VERIF, "replays", "%s-%s.json" % (cid, n))
+        os.makedirs(os.path.join(os.environ.get("VERIF_EVIDENCE_DIR", VERIF), "replays") if os.environ.get("VERIF_EVIDENCE_DIR") else os.path.join(VERIF, "replays"), exist_ok=True)
+        rp = os.path.join(os.path.join(os.environ["VERIF_EVIDENCE_DIR"], "replays") if os.environ.get("VERIF_EVIDENCE_DIR") else os.path.join(VERIF, "replays"), "%s-%s.json" % (cid, n))
         json.dump({"property": cid, "harness": n, "failed_checks": fcs, "counterexamples": fail_tests,
                    "native_replay": rr,
                    "how_to_replay": "values are the kani::any() byte strings in call order; run_kani.py generates a #[test] calling kani::concrete_playback_run(values, %s::%s) and runs `cargo kani playback`" % (cfg["module"], n)},
@@ -353,8 +376,8 @@ def write_evidence(cid, tier, seed, cfg, selected, results, confirmed, inconclus
         "wall_s": round(time.time() - t0, 1),
         "violations": len(confirmed),
     }
-    os.makedirs(os.path.join(VERIF, "evidence"), exist_ok=True)
-    json.dump(ev, open(os.path.join(VERIF, "evidence", "%s.json" % cid), "w"), indent=1)
+    os.makedirs(os.environ.get("VERIF_EVIDENCE_DIR", os.path.join(VERIF, "evidence")), exist_ok=True)
+    json.dump(ev, open(os.path.join(os.environ.get("VERIF_EVIDENCE_DIR", os.path.join(VERIF, "evidence")), "%s.json" % cid), "w"), indent=1)
 
 
 if __name__ == "__main__":
